@@ -62,8 +62,20 @@ def vbase():
             T("input", "In2", fields=[A("z", "[Int!]!")]),
             T("scalar", "Sc"),
             T("object", "Mut", fields=[F("m", "Int", [A("v", "In")])]),
+            # container elements WITHOUT children of the other kinds (fast paths / early exits must not skip
+            # their rules): an interface nobody implements, an enum with one value, a union with one member, an
+            # object with one argument-less field implementing nothing, an input object with one field (In2)
+            T("interface", "Alone", fields=[F("solo", "Int")]),
+            T("enum", "One", values=[V("ONLY")]),
+            T("union", "Solo", members=["Mut"]),
+            T("object", "Leaf", fields=[F("only", "Int")]),
         ],
-        "directives": [{"name": "dir", "locations": ["FIELD"], "args": [A("x", "Int"), A("i", "In")]}],
+        # argument-less directives first and last, one with arguments in between
+        "directives": [
+            {"name": "first_flag", "locations": ["FIELD"], "args": []},
+            {"name": "dir", "locations": ["FIELD"], "args": [A("x", "Int"), A("i", "In")]},
+            {"name": "last_flag", "locations": ["QUERY", "FIELD"], "args": []},
+        ],
         "roots": {"query": "Query", "mutation": "Mut", "subscription": None},
     }
 
@@ -223,6 +235,10 @@ def violations(sm):
             for n in non_objects:
                 if n != t["name"]:
                     out.append({"op": "union-non-object-member", "at": ["member", t["name"], n], "of": kinds[n]})
+            # the non-object type as the ONLY member (single-member fast paths)
+            for n in non_objects:
+                if n != t["name"]:
+                    out.append({"op": "union-non-object-member", "at": ["member", t["name"], n], "of": kinds[n], "sole": True})
     # G. roots
     for op in ("query", "mutation", "subscription"):
         for n in non_objects:
@@ -366,7 +382,10 @@ def apply_violation(sm, v):
         t = M.get_type(sm, at[1])
         if t is None or M.get_type(sm, at[2]) is None:
             return None
-        t["members"].append(at[2])
+        if v.get("sole"):
+            t["members"] = [at[2]]
+        else:
+            t["members"].append(at[2])
         return sm
     if op == "root-non-object":
         if M.get_type(sm, v["to"]) is None:
@@ -751,3 +770,28 @@ def shared_orders(sm, sites):
                 nxt.append(m2)
         variants = nxt
     return variants
+
+
+# ------------------------------------------------------------------------------------------
+# precedence: field resolver, then the type's default resolver, then the schema-wide default resolver
+
+PRECEDENCE_SIGNATURES = [
+    None,
+    "root, ctx, info, **kw",
+    "root, ctx, info, a=None, b=None, c=None, some_arg=None",
+    "root, ctx, info",
+    "root, ctx",
+    "root, ctx, info, extra",
+]
+
+
+def precedence_cases():
+    """[(field-level params for Query.req, type-level default params for Query, schema-wide default params)]"""
+    out = []
+    for fld in (None, "root, ctx, info, a", "root, ctx, info"):
+        for typ in PRECEDENCE_SIGNATURES:
+            for glob in PRECEDENCE_SIGNATURES:
+                if typ is None and glob is None and fld is None:
+                    continue
+                out.append([fld, typ, glob])
+    return out
